@@ -72,8 +72,12 @@ func newClientWithPort(proto int, groups uint32, cap *capture) (*libaudit.Netlin
 }
 
 func receiveEcho(c *libaudit.NetlinkClient, cap *capture) (ret string, typ int, data []byte, raw []byte) {
+	return receiveEchoN(c, cap, 5000)
+}
+
+func receiveEchoN(c *libaudit.NetlinkClient, cap *capture, maxTries int) (ret string, typ int, data []byte, raw []byte) {
 	cap.last = nil
-	for tries := 0; tries < 5000; tries++ {
+	for tries := 0; tries < maxTries; tries++ {
 		msgs, err := c.Receive(true, libaudit.VerifParseAuditMessage)
 		if err == syscall.EAGAIN || err == syscall.EINTR {
 			time.Sleep(time.Millisecond)
@@ -204,11 +208,18 @@ func netlinkCasesCmd(args []string) int {
 					stats["concurrent_sends"]++
 				}
 			}
+			// one echo per send is expected; after the last one (or a lost one) wait only briefly
+			got, want := 0, *senders**perSender
 			for {
-				ret, _, _, raw := receiveEcho(cc, cap2)
+				wait := 5000
+				if got >= want {
+					wait = 50
+				}
+				ret, _, _, raw := receiveEchoN(cc, cap2, wait)
 				if ret == "none" {
 					break
 				}
+				got++
 				w.write(map[string]interface{}{"k": "cecho", "echo": bytesOf(raw)})
 			}
 			w.write(map[string]interface{}{"k": "cend"})
